@@ -1,0 +1,115 @@
+//go:build verif
+
+package act
+
+import (
+	"ergo.services/ergo/gen"
+)
+
+// This file exists only with the "verif" build tag. It exposes the pure
+// supervisor restart state machines (supOFO, supARFO, supSOFO) and the restart
+// intensity function to the external verification harness.
+
+// VerifSupAction is the exported view of supAction
+type VerifSupAction struct {
+	Do        int // 0 nothing, 1 start child, 2 terminate children, 3 terminate children (strategy), 4 terminate
+	SpecName  gen.Atom
+	Terminate []gen.PID
+	Reason    error
+
+	spec supChildSpec
+}
+
+// VerifSup wraps one supervisor state machine
+type VerifSup struct {
+	b supBehavior
+}
+
+func verifAction(a supAction) VerifSupAction {
+	return VerifSupAction{
+		Do:        int(a.do),
+		SpecName:  a.spec.Name,
+		Terminate: append([]gen.PID(nil), a.terminate...),
+		Reason:    a.reason,
+		spec:      a.spec,
+	}
+}
+
+// VerifNewSup creates the state machine used for the given supervisor type
+func VerifNewSup(t SupervisorType) *VerifSup {
+	switch t {
+	case SupervisorTypeOneForOne:
+		return &VerifSup{b: createSupOneForOne()}
+	case SupervisorTypeAllForOne, SupervisorTypeRestForOne:
+		return &VerifSup{b: createSupAllRestForOne()}
+	case SupervisorTypeSimpleOneForOne:
+		return &VerifSup{b: createSupSimpleOneForOne()}
+	}
+	return nil
+}
+
+func (v *VerifSup) Init(spec SupervisorSpec) (VerifSupAction, error) {
+	if spec.Restart.Intensity == 0 {
+		spec.Restart.Intensity = defaultRestartIntensity
+	}
+	if spec.Restart.Period == 0 {
+		spec.Restart.Period = defaultRestartPeriod
+	}
+	a, err := v.b.init(spec)
+	return verifAction(a), err
+}
+
+func (v *VerifSup) ChildStarted(a VerifSupAction, pid gen.PID) VerifSupAction {
+	return verifAction(v.b.childStarted(a.spec, pid))
+}
+
+func (v *VerifSup) ChildTerminated(name gen.Atom, pid gen.PID, reason error) VerifSupAction {
+	return verifAction(v.b.childTerminated(name, pid, reason))
+}
+
+func (v *VerifSup) ChildSpec(name gen.Atom) (VerifSupAction, error) {
+	a, err := v.b.childSpec(name)
+	return verifAction(a), err
+}
+
+func (v *VerifSup) ChildAddSpec(spec SupervisorChildSpec) (VerifSupAction, error) {
+	a, err := v.b.childAddSpec(spec)
+	return verifAction(a), err
+}
+
+func (v *VerifSup) ChildEnable(name gen.Atom) (VerifSupAction, error) {
+	a, err := v.b.childEnable(name)
+	return verifAction(a), err
+}
+
+func (v *VerifSup) ChildDisable(name gen.Atom) (VerifSupAction, error) {
+	a, err := v.b.childDisable(name)
+	return verifAction(a), err
+}
+
+func (v *VerifSup) Children() []SupervisorChild {
+	return v.b.children()
+}
+
+// AgeRestarts moves every recorded restart timestamp ms milliseconds into the
+// past (a virtual clock advance) and returns the number of recorded restarts.
+func (v *VerifSup) AgeRestarts(ms int64) int {
+	var r []int64
+	switch s := v.b.(type) {
+	case *supOFO:
+		r = s.restarts
+	case *supARFO:
+		r = s.restarts
+	case *supSOFO:
+		r = s.restarts
+	}
+	for i := range r {
+		r[i] -= ms
+	}
+	return len(r)
+}
+
+// VerifCheckRestartIntensity exposes supCheckRestartIntensity
+func VerifCheckRestartIntensity(restarts []int64, period int, intensity int) ([]int64, bool) {
+	return supCheckRestartIntensity(restarts, period, intensity)
+}
